@@ -28,8 +28,8 @@ P = {
          "Decides for all paths: registry key = 'x'||sha256(blob) with the blob stored; put reachable only with the tombstone read absent, delete writes it, nothing deletes tombstones (the migration is shown harmless by key-length facts); every id-keyed family a put can populate (x, o, eACL, nnsHasAlias, m) is removed by Delete with the same id on every effectful path, the NNS record cleanup is attempted whenever the alias is removed, alias entry and NNS record are written together; owner index component produced by the same function at put and delete time; getters return only for live containers; PutSuccess/DeleteSuccess/SetEACLSuccess emitted at one site exactly with the state change. Equality with a model over interleavings is not decided, hence 'other'.",
          "§5 C04"),
  "C05": ("other",
-         "term agreement and must-facts at the fee transfer call; loop-shape analysis; dominance",
-         "Decides that the transferX amount is ContainerFee when no name is given and ContainerFee + ContainerAliasFee exactly when a name is given (same predicate as the alias registration), loop-invariant, one call per committee key with no early exit, payer = owner parsed from the blob, details = 0x10||id, registry write dominated by the loop exit, no exception-catching frame around the transfers. Balance-boundary exactness is delegated to C01, hence 'other'.",
+         "term agreement and must-facts at the fee transfer call; loop-shape analysis; dominance; must-execute fact at the exits of the fee setter",
+         "Decides that the transferX amount is ContainerFee when no name is given and ContainerFee + ContainerAliasFee exactly when a name is given (same predicate as the alias registration), loop-invariant, one call per committee key with no early exit, payer = owner parsed from the blob, details = 0x10||id, registry write dominated by the loop exit, no exception-catching frame around the transfers; every normal return of netmap.SetConfig has stored the submitted value (a fee of 0 included). Balance-boundary exactness is delegated to C01, hence 'other'.",
          "§5 C05"),
  "C06": ("other",
          "must-facts at every effect of NewEpoch, write-set exclusion, term checks of published keys/values, loop-shape of the fan-out, membership-loop dominance of the subscription write",
@@ -41,11 +41,11 @@ P = {
          "§5 C07"),
  "C08": ("other",
          "divisor-non-zero rule over storage writers, sibling agreement of retention bounds as canonical linear terms, must-facts at ring index computations",
-         "Explicitly thin. Decides: every writer of the snapshot count stores a value established > 0 (it is a stored divisor of NewEpoch and Snapshot); NewEpoch drops epoch e-N under e > N and the drop loop of UpdateSnapshotCount covers exactly [cur-old+1, cur-new]; Snapshot establishes 0 <= diff < count; UpdateSnapshotCount leaves the ring index < the new count at every exit; listNodes(e) scans the fixed-width prefix NewEpoch writes. The legacy ring rotation arithmetic (moveSnapshot positions after resizes) is a relation between run-time integers and is NOT decided.",
+         "Explicitly thin. Decides: every writer of the snapshot count stores a value established > 0 (it is a stored divisor of NewEpoch and Snapshot); NewEpoch drops epoch e-N under e > N and the drop loop of UpdateSnapshotCount covers exactly [cur-old+1, cur-new]; Snapshot establishes 0 <= diff < count; UpdateSnapshotCount leaves the ring index < the new count at every exit; listNodes(e) scans the fixed-width prefix NewEpoch writes (one structurally identified fixed-width encoder for writer, reader and dropper); every normal path of UpdateSnapshotCount that shrinks the window runs the drop loop (skip-edge rule). The legacy ring rotation arithmetic (moveSnapshot positions after resizes) is a relation between run-time integers and is NOT decided.",
          "§5 C08"),
  "C09": ("other",
          "abstract interpretation + term agreement at the refund call of NewEpoch and the lock record of Lock",
-         "Decides that Lock writes {0, until, from} at the lock account before transferring, that the NewEpoch refund is called only under Until != 0 and epochNum >= Until with from = scanned key, to = Parent, amount = Balance of the record loaded from that key, that the re-read by the debit leg cannot be preceded by another account store (so the record is deleted: no second unlock), that partial burns keep Until/Parent, and that a fresh deploy subscribes to the tick. Timing over tick schedules and iterator semantics are assumed, hence 'other'.",
+         "Decides that Lock writes {0, until, from} at the lock account before transferring, that the NewEpoch refund is called only under Until != 0 and epochNum >= Until with from = scanned key, to = Parent, amount = Balance of the record loaded from that key, that the re-read by the debit leg cannot be preceded by another account store (so the record is deleted: no second unlock), that partial burns keep Until/Parent, that an iteration of the tick goes round the refund only for a non-account key, Until = 0 or epochNum < Until and the scan is left only on exhaustion (every visited expired lock is released), and that a fresh deploy subscribes to the tick. Timing over tick schedules and iterator semantics are assumed, hence 'other'.",
          "§5 C09"),
  "C10": ("other",
          "per-path ledger balance over effect literals, single writers, term checks of stored records/notifications, boundary-operator agreement over all time/expiration comparisons, ordering of release before credit",
@@ -57,11 +57,11 @@ P = {
          "§5 C11"),
  "C12": ("other",
          "must-facts at record stores, exit facts for the SOA refresh, key-schema analysis of the record family, constant/argument checks of the redirect budget",
-         "Decides: id <= 15 and CNAME => id == 0 at the AddRecord store, id = count of the scan of the same (token, name, type); SetRecord only after the record with that id was read present; DeleteRecords never for SOA and deletes exactly the scanned keys; every normal path of the three mutators refreshes the SOA of the same token; Resolve starts with budget 2, recursion passes budget-1, negative cannot return; Register only with 'no conflicting parent record'; record keys are fixed width so scans are exact. Equality of the read paths with a model is not decided, hence 'other'.",
+         "Decides: id <= 15 and CNAME => id == 0 at the AddRecord store, id = count of the scan of the same (token, name, type); SetRecord only after the record with that id was read present; DeleteRecords never for SOA and deletes exactly the scanned keys; every normal path of the three mutators refreshes the SOA of the same token; Resolve starts with budget 2, recursion passes budget-1, negative cannot return; Register only with 'no conflicting parent record'; record keys are fixed width so scans are exact; GetRecords/GetAllRecords/resolve scan the records of a token only with its own and its parents' liveness established. Equality of the read paths with a model is not decided, hence 'other'.",
          "§5 C12"),
  "C13": ("other",
-         "AST/type lints specific to deploy/ with positive controls + SSA dominance rules",
-         "Explicitly thin: structural necessary conditions only. Index-space consistency of re-sliced ranges; no map iteration order reaching a witness script; tryDeploy/tryTransfer computed as 'local index == 0' and dominating every deploying/funding submission; committee sorted before the index search; NNS stage first; no import that can persist local progress; encoder/decoder field tables of the shared transaction data and checksum helpers agree; name constants agree across deploy, rpc/nns, common and the contracts; a closure invalidating the shared transaction clears the signature cache validated against it. Termination/convergence under schedules and crash points, fund and window arithmetic are NOT decided (would need execution or model checking).",
+         "AST/type lints specific to deploy/ with positive controls + SSA dominance and taint rules",
+         "Explicitly thin: structural necessary conditions only. Index-space consistency of re-sliced ranges; no map iteration order reaching a witness script; tryDeploy/tryTransfer computed as 'local index == 0' and dominating every deploying/funding submission; committee sorted before the index search; NNS stage first; no import that can persist local progress; encoder/decoder field tables of the shared transaction data and checksum helpers agree; name constants agree across deploy, rpc/nns, common and the contracts; a closure invalidating the shared transaction clears the signature cache validated against it; Transaction.Nonce/ValidUntilBlock depend on a chain height only through the window index (SSA taint). Termination/convergence under schedules and crash points, fund and window arithmetic are NOT decided (would need execution or model checking).",
          "§5 C13"),
  "C14": ("other",
          "typestate/loop-shape analysis of the counting loop, key-schema analysis of the roster families, must-facts at acceptance and notification",
@@ -73,7 +73,7 @@ P = {
          "§5 C15, §3.7"),
  "C16": ("other",
          "abstract interpretation of every Update and of every _deploy with isUpdate = true: gate entailment, version-bound facts at every effect and exit, write-set inclusion in the migration table with per-entry version guards, move/re-visit rules",
-         "Decides: all 11 Update methods call management.update only under the documented majority (the NeoFS Alphabet designated for the next block for neofs/processing) with (script, manifest, data + Version); every _deploy(update) establishes PrevVersion <= v < Version at every effect and exit for v = last element of data; its write set is within the documented migration table, each step under its version guard, no fresh-deploy initialisation reachable; migrations are whole moves selected by key length and re-visit safe. Read-API preservation for arbitrary prior storages is not decided, hence 'other'.",
+         "Decides: all 11 Update methods call management.update only under the documented majority (the NeoFS Alphabet designated for the next block for neofs/processing) with (script, manifest, data + Version); every _deploy(update) establishes PrevVersion <= v < Version at every effect and exit for v = last element of data; its write set is within the documented migration table, each step under its version guard and gone round only when the stored version is already at or above the recorded layout-change version (skip-edge rule), no fresh-deploy initialisation reachable; migrations are whole moves selected by key length and re-visit safe. Read-API preservation for arbitrary prior storages is not decided, hence 'other'.",
          "§5 C16, App. C"),
  "C17": ("other",
          "must-facts at the vote call and action effects, exit-fact exclusion on the quiet return, operator-normalised boundary agreement of the 20-block window, term check of the refreshed ballot, membership-loop dominance of the voter insertion",
@@ -85,11 +85,11 @@ P = {
          "§5 C18"),
  "C19": ("other",
          "must-facts at notification/transfer sites, canonical arithmetic terms of the shares, loop-shape of per-node transfers",
-         "Decides: Deposit only under caller = GAS and 0 < amount <= 9000*10^8 with receiver in {20-byte data, sender}; Withdraw under W(user), 0 <= amount <= 9000, fee = configured WithdrawFee once to Processing (Notary) / once per stored Alphabet key, results checked, amount*10^8 notified; Cheque pays exactly (self -> user, amount) once, checked, same terms notified; candidate fee from the witnessed key's account with the ignore marker; Emit shares floor(g/2) and floor((g - g/2)*7/8/N) over the iterated Inner Ring list; payment callbacks accept only GAS (Alphabet also NEO). The balance identity over histories is not decided, hence 'other'.",
+         "Decides: Deposit only under caller = GAS and 0 < amount <= 9000*10^8 with receiver in {20-byte data, sender}; Withdraw under W(user), 0 <= amount <= 9000, fee = configured WithdrawFee once to Processing (Notary) / once per stored Alphabet key, results checked, amount*10^8 notified; Cheque pays exactly (self -> user, amount) once, checked, same terms notified, and (without Notary) only at the 2/3+1 threshold of the witnessed Alphabet members after removing the ballot of the same id; candidate fee from the witnessed key's account with the ignore marker; Emit shares floor(g/2) and floor((g - g/2)*7/8/N) over the iterated Inner Ring list; payment callbacks accept only GAS (Alphabet also NEO). The balance identity over histories is not decided, hence 'other'.",
          "§5 C19"),
  "C20": ("other",
          "storage-layout analysis: component kinds of every Find prefix and Put key (R-prefix rule, family disjointness, put/get key agreement) + must-facts for gates, id length bound and cleanup deltas",
-         "Decides every scan of reputation, audit, container estimations, neofsid and the config maps against the R-prefix rule (four genuine findings are recorded as known findings), family disjointness of constant prefixes, key-term agreement of putters and getters, the id length bound of GetContainerSize, the gates of putContainerSize and audit.put, and the cleanup deltas 3/4 with the putter's key components. Multiset equality of listings is not decided, hence 'other'.",
+         "Decides every scan of reputation, audit, container estimations, neofsid and the config maps against the R-prefix rule (four genuine findings are recorded as known findings), family disjointness of constant prefixes, key-term agreement of putters and getters, the id length bound of GetContainerSize, AddKey/RemoveKey acting on every submitted key (loop left only on exhaustion), netmap.SetConfig always storing the submitted value, the gates of putContainerSize and audit.put, and the cleanup deltas 3/4 with the putter's key components. Multiset equality of listings is not decided, hence 'other'.",
          "§5 C20"),
 }
 
